@@ -133,9 +133,11 @@ class VM(Machine):
 
     def aug(self, op, cur, val):
         if isinstance(cur, PyList) and isinstance(op, ast.Add):
+            self.ctx.effect("mutate", (cur, "__iadd__"))
             cur.items.extend(self.to_list(val))
             return cur
         if isinstance(cur, PySet) and isinstance(op, ast.BitOr):
+            self.ctx.effect("mutate", (cur, "__ior__"))
             for x in self.to_list(val):
                 ops.set_add(cur, x)
             return cur
@@ -222,8 +224,10 @@ class VM(Machine):
                 if isinstance(o, PyDict):
                     if not ops.dict_has(o, k):
                         self.raise_("KeyError", k)
+                    self.ctx.effect("mutate", (o, "__delitem__"))
                     ops.dict_del(o, k)
                 elif isinstance(o, PyList):
+                    self.ctx.effect("mutate", (o, "__delitem__"))
                     del o.items[k]
                 elif isinstance(o, Opaque) and hasattr(o, "m_delitem"):
                     o.m_delitem(self, k)
@@ -528,6 +532,11 @@ class VM(Machine):
         hook = self.spec.opaque_hooks.get("havoc_container")
         if hook and isinstance(old, (PyList, PySet, PyDict, Opaque)):
             return hook(self, old, what)
+        hook = self.spec.opaque_hooks.get("havoc_value")
+        if hook:
+            r = hook(self, old, what)
+            if r is not None:
+                return r
         return Havoc(what)
 
     def havoc(self, fr, body_nodes, spec, name):
